@@ -6,6 +6,7 @@ import json, glob, os, subprocess, tempfile, shutil, sys, concurrent.futures as 
 for k in ("GOTOOLCHAIN", "GOFLAGS", "GOPROXY", "GOSUMDB"):
     os.environ.pop(k, None)
 BIN = os.environ.get("BIN", "/verif/bin/electlint")
+OPEN_RULES = set(f["rule"] for f in json.load(open("/verif/known_findings.json"))["findings"] if f.get("status") != "fixed")
 
 def alarms(d):
     out = subprocess.run([BIN, "-p", "all", "-repo", d, "-no-evidence"], capture_output=True, text=True).stdout
@@ -43,7 +44,10 @@ def one(meta):
         norm = lambda k: re.sub(r"#\d+", "#", k)
         cg = Counter(norm(k) for k in got)
         cb = Counter(norm(k) for k in base)
-        rules = sorted(set(k.split(" :: ")[0] for k in new if cg[norm(k)] > cb.get(norm(k), 0)))
+        # a rule with an open known finding fails on every tree (as KNOWN-FINDING or, where the
+        # construct is renamed, as an alarm): it reports a seeded change only of its own property
+        sid = os.path.basename(os.path.dirname(meta))[:3]
+        rules = sorted(set(k.split(" :: ")[0] for k in new if cg[norm(k)] > cb.get(norm(k), 0) and not (k.split(" :: ")[0] in OPEN_RULES and not k.startswith(sid + "-"))))
         if not rules and m.get("note_rules"):
             # the reporting rule also fails on the (unrepaired) commit the patch applies to: the
             # recorded rules are those of the equivalent current-tree variant named in note_rules
